@@ -2,13 +2,31 @@
 //!
 //! Read-only accessors and thin wrappers that expose crate-private state to the
 //! correspondence harness of /verif. Nothing in here is used by numbat itself and
-//! nothing in here changes behaviour.
+//! nothing in here changes behaviour. One file per property of /verif/properties.jsonl
+//! (a file may stay empty), plus `common` for shared helpers.
 
-pub mod fmt;
-pub mod misc;
-pub mod prefix;
-pub mod qty;
-pub mod session;
-pub mod syntax;
-pub mod types;
-pub mod vm;
+pub mod common;
+pub mod c01;
+pub mod c02;
+pub mod c03;
+pub mod c04;
+pub mod c05;
+pub mod c06;
+pub mod c07;
+pub mod c08;
+pub mod c09;
+pub mod c10;
+pub mod c11;
+pub mod c12;
+pub mod c13;
+pub mod c14;
+pub mod c15;
+pub mod c16;
+pub mod c17;
+pub mod c18;
+pub mod c19;
+pub mod c20;
+pub mod c21;
+pub mod c22;
+pub mod c23;
+pub mod c24;
